@@ -45,6 +45,9 @@
 (*     mesh and attribute names) is evaluated only on integer vertices.     *)
 (*  I6 fragment links: only files that did not exist before the tool ran    *)
 (*     are link files; earlier files must be left untouched.                *)
+(*  I7 link tables that repeat a label, or whose link file names collide    *)
+(*     with files already present: refusing is accepted; success must list  *)
+(*     every fragment of every row of the label (section 6, CONFLICTS).     *)
 EXTENDS Integers, Sequences, SequencesExt, FiniteSets, Functions, TLC
 
 (***************************************************************************)
@@ -356,6 +359,42 @@ LinksClause(rows, suffix, before, after) ==
      ELSE IF \E i \in new : \E r \in 1..Len(rows) :
                /\ after[i].path = LinkName(rows[r][1], suffix)
                /\ ~(after[i].st = "json" /\ after[i].frags = rows[r][2])
+     THEN "oracle:LinksExact.content"
+     ELSE "ok"
+
+\* CONFLICTS.  A table conflicts with itself when it gives one label on several
+\* rows, and with the dataset when the link file of a label would carry the
+\* name of a file that is already there (a fragment called "5" next to
+\* --no-colon-suffix, a file called "5:0").  The statement is silent on what
+\* the tool must do then; reading adopted (I7):
+\*  - whatever the outcome, files that existed before keep their bytes (I6);
+\*  - the tool may REFUSE (non-zero status / exception): nothing more is asked
+\*    (link files written before the refusal may stay);
+\*  - if it reports success, every label has exactly one new link file and it
+\*    lists ALL the fragments the table gives for that label on any of its
+\*    rows, each as often as given, in any order.
+Conflict(rows, suffix, before) ==
+  \/ \E r1, r2 \in 1..Len(rows) : r1 # r2 /\ rows[r1][1] = rows[r2][1]
+  \/ \E r \in 1..Len(rows), i \in 1..Len(before) : LinkName(rows[r][1], suffix) = before[i][1]
+GivenFor(rows, label) ==
+  FoldLeft(LAMBDA acc, row : IF row[1] = label THEN acc \o row[2] ELSE acc, << >>, rows)
+Count(s, x) == Cardinality({i \in 1..Len(s) : s[i] = x})
+SameMultiset(s, u) ==
+  /\ Len(s) = Len(u)
+  /\ \A i \in 1..Len(s) : Count(s, s[i]) = Count(u, s[i])
+LinksConflictClause(rows, suffix, before, after, success) ==
+  LET old == {before[i][1] : i \in 1..Len(before)}
+      new == {i \in 1..Len(after) : after[i].path \notin old}
+      want == {LinkName(rows[r][1], suffix) : r \in 1..Len(rows)}
+  IN IF \E i \in 1..Len(before) :
+          ~\E j \in 1..Len(after) : after[j].path = before[i][1] /\ after[j].hash = before[i][2]
+     THEN "oracle:LinksExact.untouched"
+     ELSE IF ~success THEN "ok"
+     ELSE IF {after[i].path : i \in new} # want \/ Cardinality(new) # Cardinality(want)
+     THEN "oracle:LinksExact.names"
+     ELSE IF \E i \in new : \E r \in 1..Len(rows) :
+               /\ after[i].path = LinkName(rows[r][1], suffix)
+               /\ ~(after[i].st = "json" /\ SameMultiset(after[i].frags, GivenFor(rows, rows[r][1])))
      THEN "oracle:LinksExact.content"
      ELSE "ok"
 
